@@ -818,6 +818,13 @@ class _Kinds:
             nm = call_name(e)
             if nm.split(".")[-1] == "load" and nm.split(".")[0] in ("pickle", "load"):
                 return RESULTS
+            try:
+                from . import C20 as _io20
+
+                if _io20.loader_helper(self.prog, e, fi.module) is not None:
+                    return RESULTS  # a helper that only unpickles the trace and returns it
+            except AnalysisError:
+                pass
             if isinstance(e.func, ast.Attribute):
                 rk = self.kind(fi, e.func.value)
                 if rk == RESULTS and e.func.attr in ("items", "values") and not e.args:
@@ -919,6 +926,9 @@ class _Kinds:
                     self.reads.setdefault((bk, n.args[0].value), []).append((fi, n, required))
 
 
+_PROG = None  # set by _written_keys: lets a record be built by a helper function
+
+
 def _dict_display_keys(fi, e):
     """Constant keys of a dict display / dict(k=v) call, resolving one local name."""
     if isinstance(e, ast.Name):
@@ -940,12 +950,25 @@ def _dict_display_keys(fi, e):
         return {k.value for k in e.keys}
     if isinstance(e, ast.Call) and isinstance(e.func, ast.Name) and e.func.id == "dict" and not e.args and all(k.arg for k in e.keywords):
         return {k.arg for k in e.keywords}
+    if isinstance(e, ast.Call) and isinstance(e.func, ast.Name) and _PROG is not None:
+        # a helper of the same module whose every return is a dict display (or a name bound to one)
+        g = _PROG.resolve_function(e.func.id, fi.module)
+        if g is not None and g is not fi:
+            rets = [r for r in ast.walk(g.node) if isinstance(r, ast.Return) and r.value is not None]
+            if rets:
+                keys = None
+                for r in rets:
+                    ks = _dict_display_keys(g, r.value)
+                    keys = ks if keys is None else (keys & ks)
+                return keys
     raise AnalysisError("%s: %s is not a dict display" % (fi.qualname, u(e)[:80]))
 
 
 def _written_keys(ctx):
     """(entry keys, result keys, conditional result keys, notes) from run.py and create_main_run_output."""
+    global _PROG
     prog = ctx.prog
+    _PROG = prog
     app = prog.fn("run.append_to_trace")
     aps = [c for c in calls(app.node) if isinstance(c.func, ast.Attribute) and c.func.attr == "append" and len(c.args) == 1]
     if len(aps) != 1 or not isinstance(aps[0].func.value, ast.Name) or aps[0].func.value.id not in app.params:
